@@ -90,6 +90,37 @@ def enclosing_loops(pm, node, stop) -> List[ast.AST]:
     return out
 
 
+class Iteration:
+    """one enclosing iteration of a node: a `for` statement or a comprehension generator"""
+    def __init__(self, target, iter_, conds, holder):
+        self.target, self.iter, self.conds, self.holder = target, iter_, conds, holder
+
+    def item(self, k: int) -> str:
+        """text that denotes component k of the iterated item (`edge[0]` for `for edge in ...`, `u` for `for u, v, d in ...`)"""
+        if isinstance(self.target, (ast.Tuple, ast.List)):
+            return norm(self.target.elts[k]) if k < len(self.target.elts) else f"<item>[{k}]"
+        return f"{norm(self.target)}[{k}]"
+
+
+def iterations(pm, node, stop) -> List[Iteration]:
+    """enclosing iterations of `node`, innermost first; `for` statements and comprehension generators alike.
+    `conds` holds the comprehension's own `if` filters (statement-level guards are reported by guards_of)."""
+    out = []
+    pprev, prev, cur = None, node, pm.get(node)
+    while cur is not None and prev is not stop:
+        if isinstance(cur, (ast.For, ast.AsyncFor)) and prev is not cur.iter and prev is not cur.target:
+            out.append(Iteration(cur.target, cur.iter, [], cur))
+        elif isinstance(cur, (ast.ListComp, ast.SetComp, ast.GeneratorExp, ast.DictComp)):
+            gens = cur.generators
+            if prev in gens:
+                k = gens.index(prev)  # node sits in the iter (earlier generators enclose it) or the ifs (this one does as well)
+                gens = gens[:k] if pprev is prev.iter else gens[:k + 1]
+            for g in reversed(gens):
+                out.append(Iteration(g.target, g.iter, list(g.ifs), cur))
+        pprev, prev, cur = prev, cur, pm.get(cur)
+    return out
+
+
 def mentions(expr: ast.AST, names: Sequence[str]) -> set:
     return {n.id for n in ast.walk(expr) if isinstance(n, ast.Name) and n.id in names}
 
@@ -191,3 +222,93 @@ def final_return_expr(fn: ast.AST) -> Optional[ast.AST]:
         expr = ast.copy_location(ast.IfExp(test=body[i].test, body=body[i].body[0].value, orelse=expr), body[i])
         i -= 1
     return expr
+
+
+# --------------------------------------------------------------------------
+# node-data aliases:  `x = G.nodes[n]`  and the data component of `for n, d in G.nodes(data=True)`
+# --------------------------------------------------------------------------
+class _Rename(ast.NodeTransformer):
+    def __init__(self, name, repl):
+        self.name, self.repl = name, repl
+
+    def visit_Name(self, n):
+        if n.id == self.name and isinstance(n.ctx, ast.Load):
+            import copy as _copy
+            return ast.copy_location(_copy.deepcopy(self.repl), n)
+        return n
+
+
+def expand_node_data(fn: ast.AST) -> ast.AST:
+    """copy of `fn` in which a reference to a node's attribute dict is always spelt `G.nodes[n]`:
+      * a local bound once by `x = G.nodes[n]` (G, n plain names; G bound once, n a loop variable or parameter) is replaced by that expression,
+      * inside `for n, d in G.nodes(data=True)` (statement or comprehension) `d` is replaced by `G.nodes[n]` unless the body re-binds d or n.
+    networkx hands out the same dict object on every access, so the spellings denote the same object."""
+    import copy as _copy
+    fn = _copy.deepcopy(fn)
+    defs = local_defs(fn)
+
+    def stable(name):
+        ds = defs.get(name, [])
+        return bool(ds) and (len(ds) == 1 or all(d.kind in ("for", "param", "comp") for d in ds))
+
+    # (1) assignment aliases: one transformer pass per alias over everything except the defining statement
+    for name, ds in list(local_defs(fn).items()):
+        if len(ds) != 1 or ds[0].kind != "assign" or ds[0].index:
+            continue
+        v = ds[0].value
+        if isinstance(v, ast.Subscript) and isinstance(v.value, ast.Attribute) and v.value.attr == "nodes" and isinstance(v.value.value, ast.Name) \
+                and isinstance(v.slice, ast.Name) and stable(v.value.value.id) and stable(v.slice.id):
+            _replace_everywhere(fn, name, v, skip=ds[0].stmt)
+    # (2) data component of nodes(data=True) iterations
+    for node in ast.walk(fn):
+        tgt = it = None
+        if isinstance(node, (ast.For, ast.comprehension)):
+            tgt, it = node.target, node.iter
+        if not (isinstance(tgt, ast.Tuple) and len(tgt.elts) == 2 and all(isinstance(e, ast.Name) for e in tgt.elts)):
+            continue
+        if not (isinstance(it, ast.Call) and isinstance(it.func, ast.Attribute) and it.func.attr == "nodes" and isinstance(it.func.value, ast.Name)
+                and not it.args and len(it.keywords) == 1 and it.keywords[0].arg == "data" and is_const_true(it.keywords[0].value)):
+            continue
+        n_, d_ = tgt.elts[0].id, tgt.elts[1].id
+        repl = ast.Subscript(value=ast.Attribute(value=ast.Name(id=it.func.value.id, ctx=ast.Load()), attr="nodes", ctx=ast.Load()),
+                             slice=ast.Name(id=n_, ctx=ast.Load()), ctx=ast.Load())
+        if isinstance(node, ast.For):
+            scope = node.body
+            rebinds = any(isinstance(x, ast.Name) and isinstance(x.ctx, ast.Store) and x.id in (n_, d_) for s in scope for x in ast.walk(s))
+            if rebinds:
+                continue
+            tr = _Rename(d_, repl)
+            node.body = [tr.visit(s) for s in scope]
+        else:
+            tr = _Rename(d_, repl)
+            node.ifs = [tr.visit(c) for c in node.ifs]
+            node._data_alias = (d_, repl)  # the element expression is handled by the owner below
+    for node in ast.walk(fn):
+        if isinstance(node, (ast.ListComp, ast.SetComp, ast.GeneratorExp, ast.DictComp)):
+            for g in node.generators:
+                al = getattr(g, "_data_alias", None)
+                if al:
+                    tr = _Rename(*al)
+                    if isinstance(node, ast.DictComp):
+                        node.key, node.value = tr.visit(node.key), tr.visit(node.value)
+                    else:
+                        node.elt = tr.visit(node.elt)
+    ast.fix_missing_locations(fn)
+    return fn
+
+
+def is_const_true(n) -> bool:
+    return isinstance(n, ast.Constant) and n.value is True
+
+
+def _replace_everywhere(fn, name, repl, skip):
+    tr = _Rename(name, repl)
+
+    class T(ast.NodeTransformer):
+        def visit(self, node):
+            if node is skip:
+                return node
+            if isinstance(node, ast.Name):
+                return tr.visit_Name(node)
+            return self.generic_visit(node)
+    T().visit(fn)
